@@ -191,7 +191,7 @@ def _warmup_case(case):
         hyp = p.cond()
         if inactive is not None:
             out.append(prove(f"{func}/warmup.state-of-a-parameter-without-gradient-untouched{tag}", func, hyp,
-                             z3.And(z3.BoolVal(inactive.cell.version == 0), inactive.at(IDX) == z3.Select(z3.Array("V_inactive", z3.IntSort(), z3.RealSort()), IDX)),
+                             inactive.at(IDX) == z3.Select(z3.Array("V_inactive", z3.IntSort(), z3.RealSort()), IDX),
                              model_vars=mv, case=case, replay=dict(kind="warmup", target=target),
                              text="a block of the group without gradient this step keeps its grafting second-moment state bit-for-bit (torch.optim skips parameters whose grad is None)"))
         for b in range(NB):
